@@ -1,11 +1,11 @@
 HARNESSES = {
-    'DecodeFootprint': dict(split={'op': 16, 'dest': 5}, quick=dict(params={'L': 3}), thorough=dict(params={'L': 5})),
+    'DecodeFootprint': dict(split={'op': 16, 'dest': 5}, quick=dict(params={'L': 3}), thorough=dict(params={'L': 4})),
     'InterleavedEncoders': dict(split={'resetA': 2, 'resetB': 2}),
     'EncoderLifecycle': dict(split={'getter': 5, 'meta': 3}),
 }
 
 BOUNDS = {
-    'DecodeFootprint': 'L arbitrary instruction bytes (quick 3, thorough 5; one less into an Encoder) with WithPalette + WithColorAt into recorder / Renderer / Encoder, DecodeViewBox, Disassemble',
+    'DecodeFootprint': 'L arbitrary instruction bytes (quick 3, thorough 4; one less into an Encoder) with WithPalette + WithColorAt into recorder / Renderer / Encoder, DecodeViewBox, Disassemble',
     'Helpers': 'every colour helper on an arbitrary colour, with arbitrary palette / register entries at the indices resolved; the fitting helpers on fixed arguments',
     'EncoderLifecycle': 'zero-value Encoder, one of 4 getters (or none) before anything is emitted, optional Reset with default / custom viewBox / custom palette, a 6-step program, Bytes; a second untouched Encoder',
     'Interleaved*': 'two fixed 6-step programs with symbolic selectors/colours, alternated step by step; zero-value and reset Encoders; two Renderers inside gradient paths',
